@@ -171,7 +171,8 @@ def generate(ctx):
                                        repr([None if r is None else r[f.name] for r in inp["ca"].to_pylist()]), "another field changed in a cast"
                         assert got2[0] == "ok" and repr(got2[1].array.chunked_array.to_pylist()) == repr(out.to_pylist())
                         assert got2[1].dtype == NestedDtype(new_st)
-                    elif expect[0] == "err":
+                    elif expect[0] == "err" and len(flat) > 0:
+                        # (for a column without any value Arrow's struct cast does not look at the children: nothing to mis-cast)
                         assert got[0] == "err" and got2[0] == "err", "a non-castable type request was not refused"
                 return True
             res = attempt(run)
